@@ -76,7 +76,7 @@ def tls_truth(conn, hs_in_log=True):
         if r.prot is None:
             continue
         d = dict(ct=h8(r.raw), ep=r.prot["ep"], seq=r.prot["seq"], ph=h8(r.prot["inner"]), plen=len(r.prot["inner"]),
-                 app=r.kind == "APP", fin13=r.prot["fin13"], mayFail=(r.prot["ep"] == "hs" and not hs_in_log),
+                 app=r.kind == "APP", fin13=r.prot["fin13"], mayFail=(r.prot["ep"] == "hs" and hs_in_log not in (True, "both", r.d)),
                  chain=h8(last[r.d]) if implicit else "")
         if implicit:
             body = r.raw[5:]
